@@ -188,6 +188,8 @@ pub fn run(ctx: &Ctx) -> Report {
     stage("c17.adsr.directed", adsr::directed(ctx, want), &mut rep, t0);
     let t0 = std::time::Instant::now();
     stage("c17.adsr.random", adsr::random(ctx, want), &mut rep, t0);
+    let t0 = std::time::Instant::now();
+    stage("c17.adsr.long_counts", adsr::long_counts(ctx, want), &mut rep, t0);
     // every (fs, T) combination class: gate_on must reach sustain, gate_off must reach rest
     let t0 = std::time::Instant::now();
     let n_plane = ctx.budget(10, 10_000, 1_000_000) as usize;
